@@ -13,9 +13,28 @@ class Machinery(Exception):
     pass
 
 
+def _jdefault(o):
+    """numpy scalars that a changed implementation may return where Python numbers are usual"""
+    import numpy as np
+    if isinstance(o, np.integer):
+        return int(o)
+    if isinstance(o, np.floating):
+        return float(o)
+    if isinstance(o, np.bool_):
+        return bool(o)
+    if isinstance(o, np.ndarray):
+        return o.tolist()
+    raise TypeError(f'Object of type {o.__class__.__name__} is not JSON serializable')
+
+
+def jcopy(obj):
+    """deep copy through JSON (records are JSON by construction; numpy scalars are converted)"""
+    return json.loads(json.dumps(obj, default=_jdefault))
+
+
 def jdump(obj, path):
     with open(path, 'w') as f:
-        json.dump(obj, f, separators=(',', ':'))
+        json.dump(obj, f, separators=(',', ':'), default=_jdefault)
 
 
 class Ctx:
